@@ -211,6 +211,8 @@ def features(case, obs=None):
         f.add(f"instances:{case['twin']}")
     if case.get("reenter") is not None:
         f.add("transport-reentered")
+    if case.get("abandon"):
+        f.add(f"sessions-abandoned-in-flight:{'1-2' if len(case['sessions']) <= 2 else '>=10'}")
     for t, o in (case.get("opts") or {}).items():
         for k in o:
             f.add(f"opt:{t}.{k}")
@@ -289,6 +291,7 @@ class Conversations(Suite):
         out += G.environment_matrix()
         out += G.late_duplicates()
         out += G.lenient_json_matrix()
+        out += G.abandoned_sessions()
         out += G.escaping_errors(ctx.sub_rng("c15", "escaping"), names)
         out += G.cases(ctx.sub_rng("c15", budget), n, names)
         m = G.falsy_matrix(ctx.sub_rng("c15", "matrix"))
@@ -307,6 +310,8 @@ class Conversations(Suite):
         sent, calls = client_sent(obs)
         if not sent or any(o and failed(o) for o in obs.values()):
             return None
+        if case.get("abandon"):
+            return None   # sessions left with a request in flight: carrier vs carrier vs script only
         if '"$lit"' in canon(case["xs"]):
             return None   # literals outside the model's JSON (NaN, 1e400, lone surrogate escapes): carrier vs carrier vs script only
         ref = next(o for o in obs.values() if o)
@@ -439,8 +444,15 @@ class Conversations(Suite):
     @staticmethod
     def unsendable(case):
         """calls whose message object cannot be serialised: {call index: (typed id, exception class)}"""
-        return {i: (G.G.idtag(G.G.idval(x["call"]["id"])), x["call"].get("exc", "TypeError"))
-                for i, x in enumerate(case.get("xs") or []) if x["call"].get("form") == "raising"}
+        # (likewise a request the caller ABANDONED - it left the session while the request was in flight: whether and
+        # where its late reply shows up is not compared, the sessions after it are)
+        return {i: (G.G.idtag(G.G.idval(x["call"]["id"])), x["call"].get("exc", "TypeError") if x["call"].get("form") == "raising" else "abandoned")
+                for i, x in enumerate(case.get("xs") or []) if x["call"].get("form") == "raising" or x.get("abandoned")}
+
+    @staticmethod
+    def unabandoned(case, want):
+        ids = {canon(G.G.idtag(G.G.idval(x["call"]["id"]))) for x in case.get("xs") or [] if x.get("abandoned")}
+        return [e for e in want if canon(e.get("id")) not in ids] if ids else want
 
     @staticmethod
     def masked(o, uns):
@@ -509,7 +521,7 @@ class Conversations(Suite):
             o = view.get(c)
             if o is None or not o.get("twins"):
                 continue
-            want = H.expected_transcript(case, o["sent"], o["sent_calls"])
+            want = self.unabandoned(case, H.expected_transcript(case, o["sent"], o["sent_calls"]))
             for k, t in enumerate(o["twins"], 1):
                 t = self.masked(t, uns)
                 if t.get("crash") or t.get("deadlock"):
@@ -531,7 +543,7 @@ class Conversations(Suite):
             if obs[c].get("harness_error"):
                 return None  # machinery, not an observation (the runner reports divergences separately)
         ids = client_ids(obs)
-        want = H.expected_transcript(case, *client_sent(obs))
+        want = self.unabandoned(case, H.expected_transcript(case, *client_sent(obs)))
         good = [c for c in present if not failed(obs[c]) and canon(obs[c]["transcript"]) == canon(want)]
 
         def other(c):
